@@ -365,7 +365,8 @@ ADDENDA2 = {
            "that set - a clause over the operands of the built-in delete, naming no local; backup.contains is exactly membership "
            "(full). In CreateHardLink and its walk callback every success answer (return nil) is reached with no error pending "
            "(thin). restoreByName removes a local file only if the backup does not hold it and fetches a remote file only when "
-           "it is not among the local files (thin, through the contract of contains).",
+           "it is not among the local files (thin, through the contract of contains); backupSnapshot deletes remote orphans only "
+           "after the walk and every upload succeeded (thin).",
 }
 for _k, _v in ADDENDA2.items():
     ADDENDA[_k] = (ADDENDA.get(_k, "") + " " + _v).strip()
